@@ -46,6 +46,9 @@ static inline uint64_t bits_of(float a) { return b32(a); }
 static inline uint64_t bits_of(double a) { return b64(a); }
 static inline uint64_t bits_of(bool a) { return a; }
 enum Cmp { BITS, VALUE, ULPS, LOWPREL };
+template <typename A> static inline bool is_snan(A) { return false; }
+static inline bool is_snan(float x) { uint64_t b = b32(x); return isnan32(b) && !(b & 0x400000u); }
+static inline bool is_snan(double x) { uint64_t b = b64(x); return isnan64(b) && !(b & 0x8000000000000ull); }
 static thread_local int g_checked = 0; static thread_local uint64_t g_dig = 0;   // digest of every scalar and vector result of the case (C15/C03 compare it across configurations)   // number of lane comparisons actually executed for the current case (vacuity accounting)
 template <typename A> static inline bool cmp_lane(A a, A b, int cmp, bool lowp, double mag = 0) {
   ++g_checked; { A da = a, db = b; if (std::is_floating_point<A>::value && cmp != BITS) { if (da == 0) da = 0; if (db == 0) db = 0; }   /* where the sign of zero is not prescribed it is not part of the observation */
@@ -119,10 +122,11 @@ DEF_FN(floatBitsToInt, BITS) DEF_FN(floatBitsToUint, BITS) DEF_FN(intBitsToFloat
 DEF_FN(sec, BITS) DEF_FN(csc, BITS) DEF_FN(cot, BITS) DEF_FN(asec, BITS) DEF_FN(acsc, BITS) DEF_FN(acot, BITS) DEF_FN(sech, BITS) DEF_FN(csch, BITS) DEF_FN(coth, BITS) DEF_FN(asech, BITS) DEF_FN(acsch, BITS) DEF_FN(acoth, BITS)
 DEF_FN(repeat, BITS) DEF_FN(mirrorClamp, BITS) DEF_FN(mirrorRepeat, ULPS)
 DEF_FN_PRE(iround, BITS, template <class A> static bool pre(A x) { return x >= 0 && x < (A)2147483000.0; }) DEF_FN_PRE(uround, BITS, template <class A> static bool pre(A x) { return x >= 0 && x < (A)4294967000.0; })
-DEF_FN(pow, BITS) DEF_FN(min, BITS) DEF_FN(max, BITS) DEF_FN(step, BITS) DEF_FN(fmin, VALUE) DEF_FN(fmax, VALUE) /* std::fmin(+0,-0) may return either zero */ DEF_FN(ldexp, BITS)
+DEF_FN(pow, BITS) DEF_FN(min, BITS) DEF_FN(max, BITS) DEF_FN(step, BITS) /* std::fmin(+0,-0) may return either zero; signalling NaN operands are outside the domain (platform minNum semantics) */
+DEF_FN_PRE(fmin, VALUE, template <class A> static bool pre(A a, A b) { return !is_snan(a) && !is_snan(b); }) DEF_FN_PRE(fmax, VALUE, template <class A> static bool pre(A a, A b) { return !is_snan(a) && !is_snan(b); }) DEF_FN(ldexp, BITS)
 DEF_FN_PRE(mod, ULPS, template <class A> static bool pre(A x, A y) { return x - x == 0 && y - y == 0 && y != 0; } template <class A> static double mag(A x, A y) { return 2 * std::fabs((double)x) + std::fabs((double)y); })
 struct F_atan2 { template <class... A> static double mag(A...) { return 0; } static const char* name() { return "atan(y,x)"; } enum { CMP = BITS }; template <class A, class B> static auto f(A a, B b) -> decltype(glm::atan(a, b)) { return glm::atan(a, b); } template <class... A> static bool pre(A...) { return true; } };
-DEF_FN_PRE(clamp, BITS, template <class A> static bool pre(A, A lo, A hi) { return !(lo > hi); }) DEF_FN_PRE(fclamp, VALUE, template <class A> static bool pre(A, A lo, A hi) { return !(lo > hi); })
+DEF_FN_PRE(clamp, BITS, template <class A> static bool pre(A, A lo, A hi) { return !(lo > hi); }) DEF_FN_PRE(fclamp, VALUE, template <class A> static bool pre(A x, A lo, A hi) { return !(lo > hi) && !is_snan(x) && !is_snan(lo) && !is_snan(hi); })
 DEF_FN_PRE(mix, ULPS, template <class A, class B> static bool pre(A x, A y, B a) { return true; } template <class A, class B> static double mag(A x, A y, B a) { return std::fabs((double)x * (1.0 - (double)a)) + std::fabs((double)y * (double)a) + std::fabs((double)x); })
 DEF_FN_PRE(smoothstep, ULPS, template <class A> static bool pre(A e0, A e1, A) { return e0 < e1; }) DEF_FN_PRE(fma, ULPS, template <class... A> static bool pre(A...) { return true; } template <class A> static double mag(A a, A b, A c) { return std::fabs((double)a * (double)b) + std::fabs((double)c); })
 // integer functions
